@@ -188,6 +188,8 @@ pub struct Group {
     pub emptied: u64,
     /// log length when a member last left
     pub last_leave: Option<usize>,
+    /// a persistent member's connection ended with unacknowledged deliveries of this group
+    pub persistent_unacked_leave: bool,
 }
 
 pub struct Model {
@@ -450,6 +452,9 @@ impl Model {
             for (idx, (_, c)) in g.delivered.iter() {
                 if *c == conn && unacked.contains(idx) {
                     g.redeliverable.insert(*idx);
+                    if !clean {
+                        g.persistent_unacked_leave = true;
+                    }
                 }
             }
         }
@@ -953,6 +958,9 @@ impl Model {
             }
             return;
         }
+        if std::env::var("VERIF_DEBUG_MODEL").is_ok() {
+            eprintln!("    model: observe_forward conn={conn} '{client}' payload={payload} qos={} props={:?}", p.qos, props.as_ref().map(|x| (x.topic_alias, x.subscription_identifiers.clone())));
+        }
         let is_will = payload.starts_with("W:");
         let p01: &'static str = if is_will { "C16" } else { self.prop_for(conn, "C01") };
         let Some(topic) = self.resolve_out(conn, p, props) else {
@@ -1191,6 +1199,7 @@ impl Model {
                 return;
             };
             let ambiguous = self.conns[conn].ambiguous || payload.is_empty();
+            let several = self.groups.keys().filter(|x| x.0 == gname).count() > 1;
             let g = self.groups.entry((gname.clone(), filter.clone())).or_default();
             if payload.is_empty() {
                 // clears of retained messages carry no identity: counted as delivered, never as repeated
@@ -1200,7 +1209,9 @@ impl Model {
             } else if let Some((who, _)) = g.delivered.get(&mi) {
                 out.push(
                     Record::new(p17, "shared-twice", format!("group '{gname}': '{payload}' forwarded to '{client}' after it had been forwarded to '{who}'"))
-                        .fact("same_member", who == &client),
+                        .fact("same_member", who == &client)
+                        .fact("group_name_on_several_filters", several)
+                        .fact("persistent_member_left_unacked", g.persistent_unacked_leave),
                 );
             } else {
                 g.delivered.insert(mi, (client.clone(), conn));
@@ -1210,14 +1221,17 @@ impl Model {
             }
             if let (Some(l), false) = (last, ambiguous) {
                 if mi <= l {
-                    out.push(Record::new(p17, "shared-out-of-order", format!("group '{gname}': '{client}' got '{payload}' after a later message")));
+                    let pl = g.persistent_unacked_leave;
+                    out.push(Record::new(p17, "shared-out-of-order", format!("group '{gname}': '{client}' got '{payload}' after a later message")).fact("persistent_member_left_unacked", pl).fact("group_name_on_several_filters", several));
                 }
             }
             if sub_qos != p.qos {
                 out.push(Record::new(p17, "forward-qos-mismatch", format!("'{client}': shared forward QoS {} but granted {}", p.qos, sub_qos)).fact("resubscribed_with_other_qos", requal));
             }
             let s = &mut self.sessions.get_mut(&client).unwrap().subs[pick];
-            s.last_shared = Some(s.last_shared.map(|l| l.max(mi)).unwrap_or(mi));
+            if !payload.is_empty() {
+                s.last_shared = Some(s.last_shared.map(|l| l.max(mi)).unwrap_or(mi));
+            }
             s.observed += 1;
             push_out(self, Some(path), Some(mi), false);
             return;
@@ -1444,13 +1458,18 @@ impl Model {
             let missing: Vec<usize> = (g.since..self.log.len())
                 .filter(|i| {
                     let m = &self.log[*i];
-                    !is_undefined_payload(&m.payload) && mm_matches(&m.topic, &k.1) && !g.delivered.contains_key(i)
+                    !is_undefined_payload(&m.payload) && !m.payload.is_empty() && mm_matches(&m.topic, &k.1) && !g.delivered.contains_key(i)
                 })
                 .collect();
+            if std::env::var("VERIF_DEBUG_MODEL").is_ok() {
+                eprintln!("    model: quiescent group {:?} since={} members={:?} delivered={} missing={:?}", k, g.since, g.members, g.delivered.len(), missing.iter().take(5).collect::<Vec<_>>());
+            }
             if let Some(first) = missing.first() {
                 out.push(
                     Record::new("C17", "shared-undelivered", format!("group '{}' on '{}': '{}' (and {} more) forwarded to no member although the broker is idle", k.0, k.1, self.log[*first].payload, missing.len() - 1))
                         .fact("members", g.members.len())
+                        .fact("group", k.0.clone())
+                        .fact("filter", k.1.clone())
                         .fact("member_left_since_first_missing", g.last_leave.map(|l| l >= *first).unwrap_or(false))
                         .fact("group_name_on_several_filters", self.groups.keys().filter(|x| x.0 == k.0).count() > 1),
                 );
